@@ -254,7 +254,7 @@ static void run_match(char *line) {
     /* the header is followed by a NUL, as it is in the input buffer and in a line handed to SCPI_Parse */
     char *pc = exact(p, pl + 1); char *hc = exact(h, hl + 1);
     oput("MATCH", 5);
-    if (n < 0) { int r = matchCommand(pc, hc, hl, NULL, 0, dflt); oprintf(" %d", r ? 1 : 0); }
+    if (n < 0) { int r = SCPI_Match(pc, hc, hl); oprintf(" %d", r ? 1 : 0); }   /* the public entry point (numbers = NULL) */
     else { int32_t *a = zalloc(4 * (n)); for (int i = 0; i < n; i++) a[i] = -99; int r = matchCommand(pc, hc, hl, a, n, dflt); oprintf(" %d:", r ? 1 : 0); for (int i = 0; i < n; i++) oprintf("%s%d", i ? "," : "", a[i]); zfree(a); }
     free(pc); free(hc); free(p); free(h);
 }
@@ -263,7 +263,13 @@ static void run_match(char *line) {
 static void run_i2s(char *line) {
     int w, len, base, sign; unsigned hi, lo; sscanf(line, "I2S %d %u %u %d %d %d", &w, &hi, &lo, &len, &base, &sign);
     uint64_t v = ((uint64_t) hi << 32) | lo; char *b = zalloc(len); memset(b, 0x7e, len);
-    size_t r = w == 32 ? UInt32ToStrBaseSign((uint32_t) v, b, len, (int8_t) base, sign) : UInt64ToStrBaseSign(v, b, len, (int8_t) base, sign);
+    /* through the public functions wherever one exists for the combination; the static worker otherwise */
+    size_t r;
+    if (w == 32 && sign && base == 10) r = SCPI_Int32ToStr((int32_t) (uint32_t) v, b, len);
+    else if (w == 32 && !sign) r = SCPI_UInt32ToStrBase((uint32_t) v, b, len, (int8_t) base);
+    else if (w == 64 && sign && base == 10) r = SCPI_Int64ToStr((int64_t) v, b, len);
+    else if (w == 64 && !sign) r = SCPI_UInt64ToStrBase(v, b, len, (int8_t) base);
+    else r = w == 32 ? UInt32ToStrBaseSign((uint32_t) v, b, len, (int8_t) base, sign) : UInt64ToStrBaseSign(v, b, len, (int8_t) base, sign);
     oput("I2S ", 4); ohex(b, r < (size_t) len ? r : (size_t) len); oprintf(" %d %zu", (r < (size_t) len && b[r] == 0) ? 1 : 0, r); zfree(b);
 }
 
@@ -447,6 +453,9 @@ static void run_expr(char *line) {
       oprintf(" c%d", (int) r);
       if (r == SCPI_EXPR_OK) { int m = cap < (int) dims ? cap : (int) dims; oprintf(",%d,%zu,[", ir ? 1 : 0, dims); for (int i = 0; i < m; i++) oprintf("%s%d", i ? "," : "", f[i]); oput("],[", 3); if (ir) for (int i = 0; i < m; i++) oprintf("%s%d", i ? "," : "", t[i]); oput("]", 1); }
       oprintf(",e%d", n170); zfree(f); zfree(t); }
+    SCPI_ErrorClear(&ctx);
+    { scpi_bool_t ir = 0; double a = 0, b = 0; scpi_expr_result_t r = SCPI_ExprNumericListEntryDouble(&ctx, &p, idx, &ir, &a, &b);
+      oprintf(" d%d", (int) r); if (r == SCPI_EXPR_OK) { uint64_t ab, bb; memcpy(&ab, &a, 8); memcpy(&bb, &b, 8); oprintf(",%d,%" PRIu64 ",%" PRIu64, ir ? 1 : 0, ab, ir ? bb : (uint64_t) 0); } }
     SCPI_ErrorClear(&ctx); free(full); free(body);
 }
 
